@@ -37,6 +37,10 @@ func runC17(r *hk.Run) {
 	g.multipartCases()
 	g.marshalCases()
 	g.forbiddenCases()
+	g.rerunCases()
+	g.setFilesCases()
+	g.streamCases()
+	g.protoCases()
 	g.progressUnitCases()
 	g.downloadCases()
 	r.Notes = append(r.Notes,
